@@ -92,6 +92,48 @@ var c15Shapes = []c15Shape{
 		}
 		return out
 	}},
+	{"aliased-ragged", func(n int) []harness.Comp {
+		// alias groups (shared description) of sizes 2, 3, 1, 2, 3, 1...: rows of different lengths, holes in the grid
+		var out []harness.Comp
+		sizes := []int{2, 3, 1}
+		g, left := 0, sizes[0]
+		for i := 0; i < n; i++ {
+			if left == 0 {
+				g++
+				left = sizes[g%3]
+			}
+			left--
+			out = append(out, harness.Comp{Value: fmt.Sprintf("c%02d-r", i), Desc: fmt.Sprintf("group %d", g)})
+		}
+		return out
+	}},
+	{"aliased-ragged-short-first", func(n int) []harness.Comp {
+		var out []harness.Comp
+		sizes := []int{1, 3, 2, 4}
+		g, left := 0, sizes[0]
+		for i := 0; i < n; i++ {
+			if left == 0 {
+				g++
+				left = sizes[g%4]
+			}
+			left--
+			out = append(out, harness.Comp{Value: fmt.Sprintf("c%02d", i), Desc: fmt.Sprintf("g%d", g)})
+		}
+		return out
+	}},
+	{"unusual-values", func(n int) []harness.Comp {
+		// values made of the typed word and punctuation / marker-like suffixes
+		sfx := []string{"_", "ERR", "ERROR", "-", ".", "=", ":", "/", "@", "%", "+", "~", ",", "#", "!", "*", "?", "__", "-ERR", ".ERR", "\\", "'", "\"", "$", "&", "|", ";", "<", ">", "(", ")", "[", "]", "{", "}", "^", "`"}
+		var out []harness.Comp
+		for i := 0; i < n; i++ {
+			v := "c" + sfx[i%len(sfx)]
+			if i >= len(sfx) {
+				v += fmt.Sprint(i / len(sfx))
+			}
+			out = append(out, harness.Comp{Value: v})
+		}
+		return out
+	}},
 	{"wide-glyphs", func(n int) []harness.Comp {
 		var out []harness.Comp
 		for i := 0; i < n; i++ {
@@ -176,7 +218,7 @@ func c15Verdict(cs c15Case, t *harness.Trace) (fp, what string) {
 	}
 	shape := c15Shapes[cs.shape].name
 	if cs.n == 1 {
-		if !strings.HasPrefix(words[0], "c00") || call.Waits[1].Obs.Local == "menu-select" {
+		if !strings.HasPrefix(words[0], c15Shapes[cs.shape].make(1)[0].Value) || call.Waits[1].Obs.Local == "menu-select" {
 			return "single-candidate-not-accepted-at-once", fmt.Sprintf("%s: after the first press the buffer is %q (menu active: %v)", cs, words[0], call.Waits[1].Obs.Local == "menu-select")
 		}
 		return "", ""
